@@ -283,4 +283,865 @@ theorem mem_printPDec (d : PDec) (hn : d.neg = false) : ∀ c ∈ printPDec d, i
   · exact mem_printComma d hn
   · exact mem_printPlain d hn
 
+/-! ## 2. the text of a stratified tree and the leaf -/
+
+/-- `Display for Amount` once the number has been rescaled: the number, and a blank and the commodity if there is one -/
+def amtText (d : PDec) (c : String) : List Char :=
+  if c.isEmpty then printPDec d else printPDec d ++ ' ' :: c.toList
+
+mutual
+def _root_.Okane.Spec.AddE.text : AddE → List Char
+  | .one m => m.text
+  | .add l r => l.text ++ ' ' :: '+' :: ' ' :: r.text
+  | .sub l r => l.text ++ ' ' :: '-' :: ' ' :: r.text
+def _root_.Okane.Spec.MulE.text : MulE → List Char
+  | .one u => u.text
+  | .mul l r => l.text ++ ' ' :: '*' :: ' ' :: r.text
+  | .div l r => l.text ++ ' ' :: '/' :: ' ' :: r.text
+def _root_.Okane.Spec.UnaryE.text : UnaryE → List Char
+  | .pos v => v.text
+  | .neg v => '-' :: v.text
+def _root_.Okane.Spec.ValueE.text : ValueE → List Char
+  | .amt d c => amtText d c
+  | .paren a => '(' :: (a.text ++ [')'])
+end
+
+/-- what the parser leaves: `expr::amount` eats the blanks after a number without commodity (`terminated(pretty_decimal,
+space0)`), nothing else is consumed beyond the printed text -/
+def after (bare : Bool) (rest : List Char) : List Char := if bare then skipSpaces rest else rest
+
+/-- the continuation does not extend the last token: after a bare number no digit, comma or point, and no commodity
+character after blanks; after a commodity no commodity character -/
+def tokFollow (bare : Bool) (rest : List Char) : Bool :=
+  if bare then stops isNumChar rest && stops isCommodityChar (skipSpaces rest) else stops isCommodityChar rest
+
+theorem commodityChar_not_space {c : Char} (h : isCommodityChar c = true) : isSpace c = false := by
+  cases hs : isSpace c with
+  | false => rfl
+  | true =>
+    simp [isSpace] at hs
+    rcases hs with rfl | rfl <;> exact absurd h (by decide)
+
+theorem numChar_not_space {c : Char} (h : isNumChar c = true) : isSpace c = false := by
+  cases hs : isSpace c with
+  | false => rfl
+  | true =>
+    simp [isSpace] at hs
+    rcases hs with rfl | rfl <;> exact absurd h (by decide)
+
+
+theorem after_cons_nonspace (b : Bool) {c : Char} (r : List Char) (h : isSpace c = false) : after b (c :: r) = c :: r := by
+  cases b <;> simp [after, skipSpaces, List.dropWhile, h]
+
+theorem skipSpaces_after (b : Bool) (r : List Char) : skipSpaces (after b r) = skipSpaces r := by
+  cases b <;> simp [after, skipSpaces_idem]
+
+theorem skipSpaces_cons_space (r : List Char) : skipSpaces (' ' :: r) = skipSpaces r := by
+  simp [skipSpaces, List.dropWhile, isSpace]
+
+theorem skipSpaces_cons_nonspace {c : Char} (r : List Char) (h : isSpace c = false) : skipSpaces (c :: r) = c :: r := by
+  simp [skipSpaces, List.dropWhile, h]
+
+/-- `expr::amount` reads back a printed amount -/
+theorem amount_print {d : PDec} {c : String} (hd : wfNumber d = true) (hc : isCommodityText c.toList = true)
+    {rest : List Char} (hf : tokFollow c.isEmpty rest = true) :
+    amount (amtText d c ++ rest) = .ok (.amt d c) (after c.isEmpty rest) := by
+  by_cases he : c.isEmpty = true
+  · have hnil : c.toList = [] := by simpa using he
+    have hcs : String.ofList [] = c := by rw [← hnil, String.ofList_toList]
+    simp only [tokFollow, he, if_true, Bool.and_eq_true] at hf
+    have hpd := prettyDecimal_print hd hf.1
+    simp [amtText, he, amount, hpd, commodity, takeWhile_stops hf.2, dropWhile_stops hf.2, hcs, after]
+  · simp only [tokFollow, he, Bool.false_eq_true, if_false] at hf
+    have hpd := prettyDecimal_print hd (X := ' ' :: (c.toList ++ rest)) (by simp [isNumChar])
+    simp only [isCommodityText, List.all_eq_true] at hc
+    have hsk : skipSpaces (' ' :: (c.toList ++ rest)) = c.toList ++ rest := by
+      rw [skipSpaces_cons_space]
+      cases hl : c.toList with
+      | nil => exact absurd (by simpa using hl) he
+      | cons a t =>
+        have := commodityChar_not_space (hc a (by simp [hl]))
+        simp [skipSpaces, List.dropWhile, this]
+    simp [amtText, he, amount, hpd, hsk, commodity, takeWhile_append_stops hc hf, dropWhile_append_stops hc hf, after]
+
+/-! ## 3. the stratified round trip -/
+
+/-- a literal that may stand as an operand without a sign of its own (`unary_expr` dispatches on `-` before the
+number token is tried, so `-1` in operand position is read as the negation of `1`) -/
+def _root_.Okane.Spec.ValueE.unsigned : ValueE → Bool
+  | .amt d _ => !d.neg
+  | .paren _ => true
+
+mutual
+/-- printable and re-readable: numbers the scanner reads back, commodities made of commodity characters, no
+negative literal as an un-negated operand -/
+def _root_.Okane.Spec.AddE.ok : AddE → Bool
+  | .one m => m.ok
+  | .add l r => l.ok && r.ok
+  | .sub l r => l.ok && r.ok
+def _root_.Okane.Spec.MulE.ok : MulE → Bool
+  | .one u => u.ok
+  | .mul l r => l.ok && r.ok
+  | .div l r => l.ok && r.ok
+def _root_.Okane.Spec.UnaryE.ok : UnaryE → Bool
+  | .pos v => v.ok && v.unsigned
+  | .neg v => v.ok
+def _root_.Okane.Spec.ValueE.ok : ValueE → Bool
+  | .amt d c => wfNumber d && isCommodityText c.toList
+  | .paren a => a.ok
+end
+
+/-- the printed text ends with a number without commodity -/
+def _root_.Okane.Spec.ValueE.bare : ValueE → Bool
+  | .amt _ c => c.isEmpty
+  | .paren _ => false
+def _root_.Okane.Spec.UnaryE.bare : UnaryE → Bool
+  | .pos v => v.bare
+  | .neg v => v.bare
+def _root_.Okane.Spec.MulE.bare : MulE → Bool
+  | .one u => u.bare
+  | .mul _ r => r.bare
+  | .div _ r => r.bare
+def _root_.Okane.Spec.AddE.bare : AddE → Bool
+  | .one m => m.bare
+  | .add _ r => r.bare
+  | .sub _ r => r.bare
+
+/-- number of operators of the chain (fold iterations) -/
+def _root_.Okane.Spec.MulE.cnt : MulE → Nat
+  | .one _ => 0
+  | .mul l _ => l.cnt + 1
+  | .div l _ => l.cnt + 1
+def _root_.Okane.Spec.AddE.cnt : AddE → Nat
+  | .one _ => 0
+  | .add l _ => l.cnt + 1
+  | .sub l _ => l.cnt + 1
+
+mutual
+/-- fuel with which the parser reaches the end of the tree's text (the fold loops need `cnt + 2` besides) -/
+def _root_.Okane.Spec.AddE.need : AddE → Nat
+  | .one m => max m.need (m.cnt + 2) + 1
+  | .add l r => max l.need (max r.need (r.cnt + 2) + l.cnt + 2)
+  | .sub l r => max l.need (max r.need (r.cnt + 2) + l.cnt + 2)
+def _root_.Okane.Spec.MulE.need : MulE → Nat
+  | .one u => u.need + 1
+  | .mul l r => max l.need (r.need + l.cnt + 2)
+  | .div l r => max l.need (r.need + l.cnt + 2)
+def _root_.Okane.Spec.UnaryE.need : UnaryE → Nat
+  | .pos v => v.need + 1
+  | .neg v => v.need + 1
+def _root_.Okane.Spec.ValueE.need : ValueE → Nat
+  | .amt _ _ => 1
+  | .paren a => max a.need (a.cnt + 2) + 1
+end
+
+/-- the first non-blank character of the continuation is not `*` or `/` -/
+def mulStop (rest : List Char) : Bool :=
+  match skipSpaces rest with
+  | [] => true
+  | c :: _ => (mulOp c).isNone
+/-- the first non-blank character of the continuation is not `+` or `-` -/
+def addStop (rest : List Char) : Bool :=
+  match skipSpaces rest with
+  | [] => true
+  | c :: _ => (addOp c).isNone
+
+/-- the text begins with a character that is not a blank -/
+def HeadNS (l : List Char) : Prop := ∃ c cs, l = c :: cs ∧ isSpace c = false
+
+theorem HeadNS.append {l : List Char} (h : HeadNS l) (x : List Char) : HeadNS (l ++ x) := by
+  obtain ⟨c, cs, rfl, hc⟩ := h
+  exact ⟨c, cs ++ x, rfl, hc⟩
+
+theorem HeadNS.skip {l : List Char} (h : HeadNS l) : skipSpaces l = l := by
+  obtain ⟨c, cs, rfl, hc⟩ := h
+  exact skipSpaces_cons_nonspace cs hc
+
+theorem amtText_head {d : PDec} (c : String) (h : wfNumber d = true) :
+    ∃ a cs, amtText d c = a :: cs ∧ (a = '-' ∨ isNumChar a = true) ∧ (d.neg = false → isNumChar a = true) := by
+  obtain ⟨a, cs, he, ha⟩ := printPDec_head h
+  have hneg : d.neg = false → isNumChar a = true := fun hn => mem_printPDec d hn a (by simp [he])
+  unfold amtText
+  split
+  · exact ⟨a, cs, he, ha, hneg⟩
+  · exact ⟨a, cs ++ ' ' :: c.toList, by simp [he], ha, hneg⟩
+
+theorem head_class {a : Char} (h : a = '-' ∨ isNumChar a = true) : isSpace a = false ∧ a ≠ '(' := by
+  rcases h with rfl | h
+  · decide
+  · refine ⟨numChar_not_space h, ?_⟩
+    intro e; subst e; revert h; decide
+
+mutual
+theorem addE_head : ∀ (a : AddE), a.ok = true → HeadNS a.text
+  | .one m, h => by simp only [AddE.ok] at h; simpa only [AddE.text] using mulE_head m h
+  | .add l r, h => by
+    simp only [AddE.ok, Bool.and_eq_true] at h; simpa only [AddE.text] using (addE_head l h.1).append _
+  | .sub l r, h => by
+    simp only [AddE.ok, Bool.and_eq_true] at h; simpa only [AddE.text] using (addE_head l h.1).append _
+theorem mulE_head : ∀ (m : MulE), m.ok = true → HeadNS m.text
+  | .one u, h => by simp only [MulE.ok] at h; simpa only [MulE.text] using unaryE_head u h
+  | .mul l r, h => by
+    simp only [MulE.ok, Bool.and_eq_true] at h; simpa only [MulE.text] using (mulE_head l h.1).append _
+  | .div l r, h => by
+    simp only [MulE.ok, Bool.and_eq_true] at h; simpa only [MulE.text] using (mulE_head l h.1).append _
+theorem unaryE_head : ∀ (u : UnaryE), u.ok = true → HeadNS u.text
+  | .pos v, h => by
+    simp only [UnaryE.ok, Bool.and_eq_true] at h; simpa only [UnaryE.text] using valueE_head v h.1
+  | .neg v, h => ⟨'-', v.text, by simp only [UnaryE.text], by decide⟩
+theorem valueE_head : ∀ (v : ValueE), v.ok = true → HeadNS v.text
+  | .amt d c, h => by
+    simp only [ValueE.ok, Bool.and_eq_true] at h
+    obtain ⟨a, cs, he, ha, _⟩ := amtText_head c h.1
+    exact ⟨a, cs, by simp only [ValueE.text, he], (head_class ha).1⟩
+  | .paren a, h => ⟨'(', a.text ++ [')'], by simp only [ValueE.text], by decide⟩
+end
+--END
+/-! ### one step of each parser -/
+
+theorem valueExpr_amount (f : Nat) {c : Char} (cs : List Char) (h : c ≠ '(') :
+    valueExpr (f + 1) (c :: cs) = amount (c :: cs) := by
+  rw [valueExpr]
+  · intro heq; cases heq
+  · intro r heq; injection heq with h1 _; exact h h1
+
+theorem valueExpr_paren {f : Nat} {r rest rest' : List Char} {e : Expr}
+    (h : addExpr f (skipSpaces r) = .ok e rest) (h2 : skipSpaces rest = ')' :: rest') :
+    valueExpr (f + 1) ('(' :: r) = .ok (.paren e) rest' := by
+  rw [valueExpr, h]; simp only; rw [h2]; rfl
+
+theorem unaryExpr_neg {f : Nat} {r rest : List Char} {v : VExpr} (h : valueExpr f r = .ok v rest) :
+    unaryExpr (f + 1) ('-' :: r) = .ok (.neg (.val v)) rest := by
+  rw [unaryExpr, h]
+
+theorem unaryExpr_pos {f : Nat} {c : Char} {cs rest : List Char} {v : VExpr} (hc : c ≠ '-')
+    (h : valueExpr f (c :: cs) = .ok v rest) :
+    unaryExpr (f + 1) (c :: cs) = .ok (.val v) rest := by
+  rw [unaryExpr, h]
+  · intro heq; cases heq
+  · intro r heq; injection heq with h1 _; exact hc h1
+theorem sepOp_after (op : Char → Option BinOp) (b : Bool) (r : List Char) : sepOp op (after b r) = sepOp op r := by
+  simp only [sepOp, skipSpaces_after]
+
+theorem sepOp_op (op : Char → Option BinOp) (o : Char) (X : List Char) (hX : HeadNS X) :
+    sepOp op (' ' :: o :: ' ' :: X) = if isSpace o then sepOp op (o :: ' ' :: X) else (op o).map fun b => (b, X) := by
+  cases ho : isSpace o with
+  | true => simp [sepOp, skipSpaces_cons_space]
+  | false =>
+    simp [sepOp, skipSpaces_cons_space, skipSpaces_cons_nonspace _ ho, hX.skip]
+
+theorem mulLoop_stop (g : Nat) (acc : Expr) (b : Bool) (rest : List Char) (h : mulStop rest = true) :
+    ExprSyntax.mulLoop (g + 1) acc (after b rest) = .ok acc (after b rest) := by
+  rw [ExprSyntax.mulLoop, sepOp_after]
+  have : sepOp mulOp rest = none := by
+    unfold mulStop at h
+    unfold sepOp
+    split at h
+    · rename_i heq; rw [heq]
+    · rename_i c r heq; rw [heq]; simpa using h
+  rw [this]
+
+theorem addLoop_stop (g : Nat) (acc : Expr) (b : Bool) (rest : List Char) (h : addStop rest = true) :
+    addLoop (g + 1) acc (after b rest) = .ok acc (after b rest) := by
+  rw [addLoop, sepOp_after]
+  have : sepOp addOp rest = none := by
+    unfold addStop at h
+    unfold sepOp
+    split at h
+    · rename_i heq; rw [heq]
+    · rename_i c r heq; rw [heq]; simpa using h
+  rw [this]
+--END
+/-! ### the continuations the printer itself produces are admissible -/
+
+theorem follow_op (b : Bool) (o : Char) (X : List Char) (ho : o = '+' ∨ o = '-' ∨ o = '*' ∨ o = '/') :
+    tokFollow b (' ' :: o :: ' ' :: X) = true := by
+  rcases ho with rfl | rfl | rfl | rfl <;> cases b <;>
+    simp [tokFollow, skipSpaces, List.dropWhile, isSpace, isNumChar] <;> decide
+
+theorem follow_close (b : Bool) (X : List Char) : tokFollow b (')' :: X) = true := by
+  cases b <;> simp [tokFollow, skipSpaces, List.dropWhile, isSpace, isNumChar] <;> decide
+
+theorem mulStop_addop (o : Char) (X : List Char) (ho : o = '+' ∨ o = '-') : mulStop (' ' :: o :: ' ' :: X) = true := by
+  rcases ho with rfl | rfl <;> simp [mulStop, skipSpaces, List.dropWhile, isSpace, mulOp]
+
+theorem mulStop_close (X : List Char) : mulStop (')' :: X) = true := by
+  simp [mulStop, skipSpaces, List.dropWhile, isSpace, mulOp]
+
+theorem addStop_close (X : List Char) : addStop (')' :: X) = true := by
+  simp [addStop, skipSpaces, List.dropWhile, isSpace, addOp]
+
+theorem valueE_head_unsigned (v : ValueE) (h : v.ok = true) (hu : v.unsigned = true) :
+    ∃ c cs, v.text = c :: cs ∧ c ≠ '-' := by
+  cases v with
+  | amt d c =>
+    simp only [ValueE.ok, Bool.and_eq_true] at h
+    simp only [ValueE.unsigned, Bool.not_eq_true'] at hu
+    obtain ⟨a, cs, he, _, hn⟩ := amtText_head c h.1
+    exact ⟨a, cs, by simp only [ValueE.text, he], numChar_ne_minus (hn hu)⟩
+  | paren a => exact ⟨'(', a.text ++ [')'], by simp only [ValueE.text], by decide⟩
+--END
+/-! ### the parsers on the text of a stratified tree (any sufficient fuel) -/
+
+mutual
+/-- `add_expr` on the text of `a`: the first operand and `a.cnt` fold iterations later the loop stands at the end of
+the text with the left-nested tree -/
+theorem addE_parse : ∀ (a : AddE) (k : Nat) (rest : List Char), a.ok = true → tokFollow a.bare rest = true →
+    mulStop rest = true → a.need ≤ k + 1 + a.cnt →
+    addExpr (k + 1 + a.cnt) (a.text ++ rest) = addLoop k a.toExpr (after a.bare rest)
+  | .one m, k, rest, hok, hf, hms, hn => by
+    simp only [AddE.ok] at hok
+    simp only [AddE.bare] at hf ⊢
+    simp only [AddE.need, AddE.cnt] at hn
+    simp only [AddE.text, AddE.toExpr, AddE.cnt, Nat.add_zero]
+    obtain ⟨k', rfl⟩ : ∃ k', k = k' + 1 + 1 + m.cnt := ⟨k - 2 - m.cnt, by omega⟩
+    rw [addExpr, mulE_parse m (k' + 1) rest hok hf (by omega), mulLoop_stop k' _ _ _ hms]
+  | .add l r, k, rest, hok, hf, hms, hn => by
+    simp only [AddE.ok, Bool.and_eq_true] at hok
+    simp only [AddE.bare] at hf ⊢
+    simp only [AddE.need, AddE.cnt] at hn
+    simp only [AddE.text, AddE.toExpr, AddE.cnt, List.append_assoc, List.cons_append]
+    obtain ⟨k', rfl⟩ : ∃ k', k = k' + 1 + 1 + r.cnt := ⟨k - 2 - r.cnt, by omega⟩
+    have e : k' + 1 + 1 + r.cnt + 1 + (l.cnt + 1) = (k' + 1 + 1 + r.cnt + 1) + 1 + l.cnt := by omega
+    rw [e, addE_parse l (k' + 1 + 1 + r.cnt + 1) _ hok.1 (follow_op _ '+' _ (by simp)) (mulStop_addop '+' _ (by simp))
+      (by omega)]
+    rw [addLoop, sepOp_after, sepOp_op _ _ _ ((mulE_head r hok.2).append rest)]
+    simp only [isSpace, addOp, Option.map, Char.reduceBEq, Bool.or_self, Bool.false_eq_true, if_false]
+    rw [mulE_parse r (k' + 1) rest hok.2 hf (by omega), mulLoop_stop k' _ _ _ hms]
+  | .sub l r, k, rest, hok, hf, hms, hn => by
+    simp only [AddE.ok, Bool.and_eq_true] at hok
+    simp only [AddE.bare] at hf ⊢
+    simp only [AddE.need, AddE.cnt] at hn
+    simp only [AddE.text, AddE.toExpr, AddE.cnt, List.append_assoc, List.cons_append]
+    obtain ⟨k', rfl⟩ : ∃ k', k = k' + 1 + 1 + r.cnt := ⟨k - 2 - r.cnt, by omega⟩
+    have e : k' + 1 + 1 + r.cnt + 1 + (l.cnt + 1) = (k' + 1 + 1 + r.cnt + 1) + 1 + l.cnt := by omega
+    rw [e, addE_parse l (k' + 1 + 1 + r.cnt + 1) _ hok.1 (follow_op _ '-' _ (by simp)) (mulStop_addop '-' _ (by simp))
+      (by omega)]
+    rw [addLoop, sepOp_after, sepOp_op _ _ _ ((mulE_head r hok.2).append rest)]
+    simp only [isSpace, addOp, Option.map, Char.reduceBEq, Bool.or_self, Bool.false_eq_true, if_false]
+    rw [mulE_parse r (k' + 1) rest hok.2 hf (by omega), mulLoop_stop k' _ _ _ hms]
+/-- `mul_expr` likewise -/
+theorem mulE_parse : ∀ (m : MulE) (k : Nat) (rest : List Char), m.ok = true → tokFollow m.bare rest = true →
+    m.need ≤ k + 1 + m.cnt →
+    mulExpr (k + 1 + m.cnt) (m.text ++ rest) = ExprSyntax.mulLoop k m.toExpr (after m.bare rest)
+  | .one u, k, rest, hok, hf, hn => by
+    simp only [MulE.ok] at hok
+    simp only [MulE.bare] at hf ⊢
+    simp only [MulE.need, MulE.cnt] at hn
+    simp only [MulE.text, MulE.toExpr, MulE.cnt, Nat.add_zero]
+    rw [mulExpr, unaryE_parse u k rest hok hf (by omega)]
+  | .mul l r, k, rest, hok, hf, hn => by
+    simp only [MulE.ok, Bool.and_eq_true] at hok
+    simp only [MulE.bare] at hf ⊢
+    simp only [MulE.need, MulE.cnt] at hn
+    simp only [MulE.text, MulE.toExpr, MulE.cnt, List.append_assoc, List.cons_append]
+    have e : k + 1 + (l.cnt + 1) = (k + 1) + 1 + l.cnt := by omega
+    rw [e, mulE_parse l (k + 1) _ hok.1 (follow_op _ '*' _ (by simp)) (by omega)]
+    rw [ExprSyntax.mulLoop, sepOp_after, sepOp_op _ _ _ ((unaryE_head r hok.2).append rest)]
+    simp only [isSpace, mulOp, Option.map, Char.reduceBEq, Bool.or_self, Bool.false_eq_true, if_false]
+    rw [unaryE_parse r k rest hok.2 hf (by omega)]
+  | .div l r, k, rest, hok, hf, hn => by
+    simp only [MulE.ok, Bool.and_eq_true] at hok
+    simp only [MulE.bare] at hf ⊢
+    simp only [MulE.need, MulE.cnt] at hn
+    simp only [MulE.text, MulE.toExpr, MulE.cnt, List.append_assoc, List.cons_append]
+    have e : k + 1 + (l.cnt + 1) = (k + 1) + 1 + l.cnt := by omega
+    rw [e, mulE_parse l (k + 1) _ hok.1 (follow_op _ '/' _ (by simp)) (by omega)]
+    rw [ExprSyntax.mulLoop, sepOp_after, sepOp_op _ _ _ ((unaryE_head r hok.2).append rest)]
+    simp only [isSpace, mulOp, Option.map, Char.reduceBEq, Bool.or_self, Bool.false_eq_true, if_false]
+    rw [unaryE_parse r k rest hok.2 hf (by omega)]
+/-- `unary_expr` reads back a (possibly negated) value -/
+theorem unaryE_parse : ∀ (u : UnaryE) (f : Nat) (rest : List Char), u.ok = true → tokFollow u.bare rest = true →
+    u.need ≤ f → unaryExpr f (u.text ++ rest) = .ok u.toExpr (after u.bare rest)
+  | .pos v, f, rest, hok, hf, hn => by
+    simp only [UnaryE.ok, Bool.and_eq_true] at hok
+    simp only [UnaryE.bare] at hf ⊢
+    simp only [UnaryE.need] at hn
+    simp only [UnaryE.text, UnaryE.toExpr]
+    obtain ⟨g, rfl⟩ : ∃ g, f = g + 1 := ⟨f - 1, by omega⟩
+    have hv := valueE_parse v g rest hok.1 hf (by omega)
+    obtain ⟨c, cs, he, hc⟩ := valueE_head_unsigned v hok.1 hok.2
+    rw [he, List.cons_append] at hv ⊢
+    exact unaryExpr_pos hc hv
+  | .neg v, f, rest, hok, hf, hn => by
+    simp only [UnaryE.ok] at hok
+    simp only [UnaryE.bare] at hf ⊢
+    simp only [UnaryE.need] at hn
+    simp only [UnaryE.text, UnaryE.toExpr, List.cons_append]
+    obtain ⟨g, rfl⟩ : ∃ g, f = g + 1 := ⟨f - 1, by omega⟩
+    exact unaryExpr_neg (valueE_parse v g rest hok hf (by omega))
+/-- `value_expr` reads back an amount or a parenthesised sum -/
+theorem valueE_parse : ∀ (v : ValueE) (f : Nat) (rest : List Char), v.ok = true → tokFollow v.bare rest = true →
+    v.need ≤ f → valueExpr f (v.text ++ rest) = .ok v.toVExpr (after v.bare rest)
+  | .amt d c, f, rest, hok, hf, hn => by
+    simp only [ValueE.ok, Bool.and_eq_true] at hok
+    simp only [ValueE.bare] at hf ⊢
+    simp only [ValueE.need] at hn
+    simp only [ValueE.text, ValueE.toVExpr]
+    obtain ⟨g, rfl⟩ : ∃ g, f = g + 1 := ⟨f - 1, by omega⟩
+    have ha := amount_print hok.1 hok.2 hf
+    obtain ⟨a, cs, he, hcl, _⟩ := amtText_head c hok.1
+    rw [he, List.cons_append] at ha ⊢
+    rw [valueExpr_amount g _ (head_class hcl).2, ha]
+  | .paren a, f, rest, hok, hf, hn => by
+    simp only [ValueE.ok] at hok
+    simp only [ValueE.need] at hn
+    simp only [ValueE.text, ValueE.toVExpr, ValueE.bare, after, Bool.false_eq_true, if_false, List.cons_append,
+      List.append_assoc, List.nil_append]
+    obtain ⟨k', rfl⟩ : ∃ k', f = (k' + 1 + 1 + a.cnt) + 1 := ⟨f - 3 - a.cnt, by omega⟩
+    apply valueExpr_paren (rest := ')' :: rest)
+    · rw [((addE_head a hok).append _).skip,
+        addE_parse a (k' + 1) (')' :: rest) hok (follow_close _ _) (mulStop_close _) (by omega),
+        addLoop_stop k' _ _ _ (addStop_close _), after_cons_nonspace _ _ (by decide)]
+    · exact skipSpaces_cons_nonspace _ (by decide)
+end
+--END
+/-! ### `parseFuel` suffices -/
+
+mutual
+theorem addE_bound : ∀ (a : AddE), a.need ≤ 5 * a.text.length + 4 ∧ 3 * a.cnt ≤ a.text.length
+  | .one m => by
+    have := mulE_bound m
+    simp only [AddE.need, AddE.cnt, AddE.text]; omega
+  | .add l r => by
+    have := addE_bound l; have := mulE_bound r
+    simp only [AddE.need, AddE.cnt, AddE.text, List.length_append, List.length_cons]; omega
+  | .sub l r => by
+    have := addE_bound l; have := mulE_bound r
+    simp only [AddE.need, AddE.cnt, AddE.text, List.length_append, List.length_cons]; omega
+theorem mulE_bound : ∀ (m : MulE), m.need ≤ 5 * m.text.length + 3 ∧ 3 * m.cnt ≤ m.text.length
+  | .one u => by
+    have := unaryE_bound u
+    simp only [MulE.need, MulE.cnt, MulE.text]; omega
+  | .mul l r => by
+    have := mulE_bound l; have := unaryE_bound r
+    simp only [MulE.need, MulE.cnt, MulE.text, List.length_append, List.length_cons]; omega
+  | .div l r => by
+    have := mulE_bound l; have := unaryE_bound r
+    simp only [MulE.need, MulE.cnt, MulE.text, List.length_append, List.length_cons]; omega
+theorem unaryE_bound : ∀ (u : UnaryE), u.need ≤ 5 * u.text.length + 2
+  | .pos v => by
+    have := valueE_bound v
+    simp only [UnaryE.need, UnaryE.text]; omega
+  | .neg v => by
+    have := valueE_bound v
+    simp only [UnaryE.need, UnaryE.text, List.length_cons]; omega
+theorem valueE_bound : ∀ (v : ValueE), v.need ≤ 5 * v.text.length + 1
+  | .amt d c => by simp only [ValueE.need]; omega
+  | .paren a => by
+    have := addE_bound a
+    simp only [ValueE.need, ValueE.text, List.length_append, List.length_cons, List.length_nil]; omega
+end
+
+/-- the continuation does not extend the last token of the text of `v`: nothing is required after `)` -/
+def _root_.Okane.Spec.ValueE.follow (v : ValueE) (rest : List Char) : Bool :=
+  match v with
+  | .paren _ => true
+  | .amt _ c => tokFollow c.isEmpty rest
+
+/-- `paren_expr`, whatever follows the closing parenthesis -/
+theorem paren_parse (a : AddE) (f : Nat) (rest : List Char) (hok : a.ok = true)
+    (hn : max a.need (a.cnt + 2) + 1 ≤ f) :
+    valueExpr f ('(' :: (a.text ++ ')' :: rest)) = .ok (.paren a.toExpr) rest := by
+  obtain ⟨k', rfl⟩ : ∃ k', f = (k' + 1 + 1 + a.cnt) + 1 := ⟨f - 3 - a.cnt, by omega⟩
+  apply valueExpr_paren (rest := ')' :: rest)
+  · rw [((addE_head a hok).append _).skip,
+      addE_parse a (k' + 1) (')' :: rest) hok (follow_close _ _) (mulStop_close _) (by omega),
+      addLoop_stop k' _ _ _ (addStop_close _), after_cons_nonspace _ _ (by decide)]
+  · exact skipSpaces_cons_nonspace _ (by decide)
+
+/-- **the stratified round trip**: `value_expr` (with the fuel the model always passes) reads the text of a
+stratified tree back as exactly that tree, leaving the continuation (less the blanks `amount` eats after a number
+without commodity) -/
+theorem valueE_roundtrip (v : ValueE) (rest : List Char) (hok : v.ok = true) (hf : v.follow rest = true) :
+    parseValueExpr (v.text ++ rest) = .ok v.toVExpr (after v.bare rest) := by
+  have hb := valueE_bound v
+  have hfuel : v.need ≤ parseFuel (v.text ++ rest) := by simp only [parseFuel, List.length_append]; omega
+  cases v with
+  | amt d c => exact valueE_parse (.amt d c) _ rest hok (by simpa [ValueE.follow, ValueE.bare] using hf) hfuel
+  | paren a =>
+    simp only [ValueE.ok] at hok
+    simp only [ValueE.need] at hfuel
+    simp only [ValueE.text, ValueE.toVExpr, ValueE.bare, after, Bool.false_eq_true, if_false, List.cons_append,
+      List.append_assoc, List.nil_append] at hfuel ⊢
+    exact paren_parse a _ rest hok hfuel
+
+/-- `add_expr` (any sufficient fuel) reads the text of a stratified sum back as its left-nested tree, before any
+continuation that neither extends the last token nor continues the sum -/
+theorem addE_roundtrip (a : AddE) (f : Nat) (rest : List Char) (hok : a.ok = true) (hf : tokFollow a.bare rest = true)
+    (hm : mulStop rest = true) (ha : addStop rest = true) (hfuel : 5 * a.text.length + 5 ≤ f) :
+    addExpr f (a.text ++ rest) = .ok a.toExpr (after a.bare rest) := by
+  have hb := addE_bound a
+  obtain ⟨k, rfl⟩ : ∃ k, f = (k + 1) + 1 + a.cnt := ⟨f - 2 - a.cnt, by omega⟩
+  rw [addE_parse a (k + 1) rest hok hf hm (by omega), addLoop_stop k _ _ _ ha]
+--END
+/-! ## 4. the parser's own tree type -/
+
+/-- an operand that carries no sign of its own -/
+def unsignedV : VExpr → Bool
+  | .amt d _ => !d.neg
+  | .paren _ => true
+
+mutual
+/-- no negative literal stands as an un-negated operand (`(-1)` is read back as the negation of `1`; a negative
+amount as the whole value expression, and `--1`, are fine) -/
+def plainE : Expr → Bool
+  | .neg (.val v) => plainV v
+  | .neg e => plainE e
+  | .bin _ l r => plainE l && plainE r
+  | .val v => unsignedV v && plainV v
+def plainV : VExpr → Bool
+  | .amt _ _ => true
+  | .paren e => plainE e
+end
+
+theorem unsigned_toVExpr (t : ValueE) : t.unsigned = unsignedV t.toVExpr := by
+  cases t <;> rfl
+
+/-- every well-formed plain tree is the image of a stratified tree -/
+theorem stratify (n : Nat) :
+    (∀ e : Expr, sizeOf e ≤ n → plainE e = true →
+      (wfUnary e = true → ∃ u : UnaryE, u.toExpr = e ∧ u.ok = true) ∧
+      (wfMul e = true → ∃ m : MulE, m.toExpr = e ∧ m.ok = true) ∧
+      (wfAdd e = true → ∃ a : AddE, a.toExpr = e ∧ a.ok = true)) ∧
+    (∀ v : VExpr, sizeOf v ≤ n → plainV v = true → wfVExpr v = true → ∃ t : ValueE, t.toVExpr = v ∧ t.ok = true) := by
+  induction n with
+  | zero =>
+    constructor
+    · intro e he; cases e <;> simp at he <;> omega
+    · intro v hv; cases v <;> simp at hv <;> omega
+  | succ n ih =>
+    have hV : ∀ v : VExpr, sizeOf v ≤ n + 1 → plainV v = true → wfVExpr v = true →
+        ∃ t : ValueE, t.toVExpr = v ∧ t.ok = true := by
+      intro v hv hp hw
+      cases v with
+      | amt d c => exact ⟨.amt d c, rfl, by simpa [ValueE.ok, wfVExpr] using hw⟩
+      | paren e =>
+        simp only [VExpr.paren.sizeOf_spec] at hv
+        simp only [plainV] at hp
+        simp only [wfVExpr] at hw
+        obtain ⟨a, ha, hok⟩ := (ih.1 e (by omega) hp).2.2 hw
+        exact ⟨.paren a, by simp only [ValueE.toVExpr, ha], by simpa only [ValueE.ok] using hok⟩
+    refine ⟨?_, hV⟩
+    intro e he hp
+    have hU : wfUnary e = true → ∃ u : UnaryE, u.toExpr = e ∧ u.ok = true := by
+      intro hw
+      cases e with
+      | neg e' =>
+        cases e' with
+        | val v =>
+          simp only [Expr.neg.sizeOf_spec, Expr.val.sizeOf_spec] at he
+          simp only [plainE] at hp
+          simp only [wfUnary] at hw
+          obtain ⟨t, ht, hok⟩ := ih.2 v (by omega) hp hw
+          exact ⟨.neg t, by simp only [UnaryE.toExpr, ht], by simpa only [UnaryE.ok] using hok⟩
+        | neg _ => simp [wfUnary] at hw
+        | bin _ _ _ => simp [wfUnary] at hw
+      | val v =>
+        simp only [Expr.val.sizeOf_spec] at he
+        simp only [plainE, Bool.and_eq_true] at hp
+        simp only [wfUnary] at hw
+        obtain ⟨t, ht, hok⟩ := ih.2 v (by omega) hp.2 hw
+        refine ⟨.pos t, by simp only [UnaryE.toExpr, ht], ?_⟩
+        simp only [UnaryE.ok, hok, unsigned_toVExpr, ht, hp.1, Bool.and_self]
+      | bin _ _ _ => simp [wfUnary] at hw
+    have hM : wfMul e = true → ∃ m : MulE, m.toExpr = e ∧ m.ok = true := by
+      intro hw
+      cases e with
+      | bin op l r =>
+        simp only [Expr.bin.sizeOf_spec] at he
+        simp only [plainE, Bool.and_eq_true] at hp
+        cases op with
+        | mul =>
+          simp only [wfMul, Bool.and_eq_true] at hw
+          obtain ⟨m, hm, hmo⟩ := (ih.1 l (by omega) hp.1).2.1 hw.1
+          obtain ⟨u, hu, huo⟩ := (ih.1 r (by omega) hp.2).1 hw.2
+          exact ⟨.mul m u, by simp only [MulE.toExpr, hm, hu], by simp only [MulE.ok, hmo, huo, Bool.and_self]⟩
+        | div =>
+          simp only [wfMul, Bool.and_eq_true] at hw
+          obtain ⟨m, hm, hmo⟩ := (ih.1 l (by omega) hp.1).2.1 hw.1
+          obtain ⟨u, hu, huo⟩ := (ih.1 r (by omega) hp.2).1 hw.2
+          exact ⟨.div m u, by simp only [MulE.toExpr, hm, hu], by simp only [MulE.ok, hmo, huo, Bool.and_self]⟩
+        | add => simp [wfMul] at hw
+        | sub => simp [wfMul] at hw
+      | neg e' =>
+        obtain ⟨u, hu, huo⟩ := hU (by simpa [wfMul] using hw)
+        exact ⟨.one u, by simp only [MulE.toExpr, hu], by simpa only [MulE.ok] using huo⟩
+      | val v =>
+        obtain ⟨u, hu, huo⟩ := hU (by simpa [wfMul] using hw)
+        exact ⟨.one u, by simp only [MulE.toExpr, hu], by simpa only [MulE.ok] using huo⟩
+    refine ⟨hU, hM, ?_⟩
+    intro hw
+    cases e with
+    | bin op l r =>
+      simp only [Expr.bin.sizeOf_spec] at he
+      have hp' := hp
+      simp only [plainE, Bool.and_eq_true] at hp'
+      cases op with
+      | add =>
+        simp only [wfAdd, Bool.and_eq_true] at hw
+        obtain ⟨a, ha, hao⟩ := (ih.1 l (by omega) hp'.1).2.2 hw.1
+        obtain ⟨m, hm, hmo⟩ := (ih.1 r (by omega) hp'.2).2.1 hw.2
+        exact ⟨.add a m, by simp only [AddE.toExpr, ha, hm], by simp only [AddE.ok, hao, hmo, Bool.and_self]⟩
+      | sub =>
+        simp only [wfAdd, Bool.and_eq_true] at hw
+        obtain ⟨a, ha, hao⟩ := (ih.1 l (by omega) hp'.1).2.2 hw.1
+        obtain ⟨m, hm, hmo⟩ := (ih.1 r (by omega) hp'.2).2.1 hw.2
+        exact ⟨.sub a m, by simp only [AddE.toExpr, ha, hm], by simp only [AddE.ok, hao, hmo, Bool.and_self]⟩
+      | mul =>
+        obtain ⟨m, hm, hmo⟩ := hM (by simpa [wfAdd] using hw)
+        exact ⟨.one m, by simp only [AddE.toExpr, hm], by simpa only [AddE.ok] using hmo⟩
+      | div =>
+        obtain ⟨m, hm, hmo⟩ := hM (by simpa [wfAdd] using hw)
+        exact ⟨.one m, by simp only [AddE.toExpr, hm], by simpa only [AddE.ok] using hmo⟩
+    | neg e' =>
+      obtain ⟨m, hm, hmo⟩ := hM (by simpa [wfAdd] using hw)
+      exact ⟨.one m, by simp only [AddE.toExpr, hm], by simpa only [AddE.ok] using hmo⟩
+    | val v =>
+      obtain ⟨m, hm, hmo⟩ := hM (by simpa [wfAdd] using hw)
+      exact ⟨.one m, by simp only [AddE.toExpr, hm], by simpa only [AddE.ok] using hmo⟩
+
+theorem stratifyV (v : VExpr) (hw : wfVExpr v = true) (hp : plainV v = true) :
+    ∃ t : ValueE, t.toVExpr = v ∧ t.ok = true :=
+  (stratify (sizeOf v)).2 v (Nat.le_refl _) hp hw
+
+theorem stratifyA (e : Expr) (hw : wfAdd e = true) (hp : plainE e = true) :
+    ∃ a : AddE, a.toExpr = e ∧ a.ok = true :=
+  ((stratify (sizeOf e)).1 e (Nat.le_refl _) hp).2.2 hw
+--END
+/-! ### what the printer writes -/
+
+theorem printExpr_bin (p : String → Nat) (op : BinOp) (l r : Expr) :
+    printExpr p (.bin op l r) = printExpr p l ++ ' ' :: opChar op :: ' ' :: printExpr p r := by
+  simp [printExpr, printExprA]
+theorem printExpr_neg (p : String → Nat) (e : Expr) : printExpr p (.neg e) = '-' :: printExpr p e := by
+  simp [printExpr, printExprA]
+theorem printExpr_val (p : String → Nat) (v : VExpr) : printExpr p (.val v) = printVExpr p v := by
+  simp [printExpr, printVExpr, printExprA]
+theorem printVExpr_paren (p : String → Nat) (e : Expr) : printVExpr p (.paren e) = '(' :: (printExpr p e ++ [')']) := by
+  simp [printExpr, printVExpr, printVExprA]
+theorem printVExpr_amt (p : String → Nat) (d : PDec) (c : String) :
+    printVExpr p (.amt d c) = amtText (displayRescale p d c) c := by
+  simp [printVExpr, printVExprA, amtText]; split <;> rfl
+
+theorem displayRescale_noPrec (d : PDec) (c : String) : displayRescale noPrec d c = d := by
+  simp [displayRescale, noPrec, rescale]
+
+mutual
+/-- without declared precisions the printer writes the text of the stratified tree -/
+theorem addE_print : ∀ (a : AddE), printExpr noPrec a.toExpr = a.text
+  | .one m => by simp only [AddE.toExpr, AddE.text, mulE_print m]
+  | .add l r => by simp only [AddE.toExpr, AddE.text, printExpr_bin, opChar, addE_print l, mulE_print r]
+  | .sub l r => by simp only [AddE.toExpr, AddE.text, printExpr_bin, opChar, addE_print l, mulE_print r]
+theorem mulE_print : ∀ (m : MulE), printExpr noPrec m.toExpr = m.text
+  | .one u => by simp only [MulE.toExpr, MulE.text, unaryE_print u]
+  | .mul l r => by simp only [MulE.toExpr, MulE.text, printExpr_bin, opChar, mulE_print l, unaryE_print r]
+  | .div l r => by simp only [MulE.toExpr, MulE.text, printExpr_bin, opChar, mulE_print l, unaryE_print r]
+theorem unaryE_print : ∀ (u : UnaryE), printExpr noPrec u.toExpr = u.text
+  | .pos v => by simp only [UnaryE.toExpr, UnaryE.text, printExpr_val, valueE_print v]
+  | .neg v => by simp only [UnaryE.toExpr, UnaryE.text, printExpr_neg, printExpr_val, valueE_print v]
+theorem valueE_print : ∀ (v : ValueE), printVExpr noPrec v.toVExpr = v.text
+  | .amt d c => by simp only [ValueE.toVExpr, ValueE.text, printVExpr_amt, displayRescale_noPrec]
+  | .paren a => by simp only [ValueE.toVExpr, ValueE.text, printVExpr_paren, addE_print a]
+end
+
+/-! ### the round trip on `VExpr` -/
+
+/-- the printed value expression ends with a number without commodity -/
+def bareV : VExpr → Bool
+  | .amt _ c => c.isEmpty
+  | .paren _ => false
+
+theorem bare_toVExpr (t : ValueE) : t.bare = bareV t.toVExpr := by cases t <;> rfl
+
+/-- the continuation does not extend the last token of the printed `v`: nothing is required after `)`; after a
+commodity, no commodity character; after a number without commodity, no digit, comma or point, and no commodity
+character after blanks -/
+def follow (v : VExpr) (rest : List Char) : Bool :=
+  match v with
+  | .paren _ => true
+  | .amt _ _ => tokFollow (bareV v) rest
+
+/-- what is left after the value expression: `expr::amount` also eats the blanks after a number without commodity -/
+def afterV (v : VExpr) (rest : List Char) : List Char := after (bareV v) rest
+
+/-- **C08_parse / ExprRT.**  `value_expr` reads back what `fmt_with_alignment` writes (no declared precisions), for
+every well-formed plain tree and every continuation that does not extend its last token. -/
+theorem parse_print (v : VExpr) (rest : List Char) (hw : wfVExpr v = true) (hp : plainV v = true)
+    (hf : follow v rest = true) :
+    parseValueExpr (printVExpr noPrec v ++ rest) = .ok v (afterV v rest) := by
+  obtain ⟨t, rfl, hok⟩ := stratifyV v hw hp
+  have hf' : t.follow rest = true := by
+    cases t with
+    | amt d c => simpa [follow, ValueE.toVExpr, bareV, ValueE.follow] using hf
+    | paren a => rfl
+  rw [valueE_print, afterV, ← bare_toVExpr]
+  exact valueE_roundtrip t rest hok hf'
+--END
+/-! ### a tree-independent admissibility condition (what follows an expression in a posting) -/
+
+/-- the continuation is empty, or its first character is not a digit, comma or point and its first non-blank
+character is not a commodity character.  True of everything that follows a value expression in the ledger grammar:
+end of input, new-line, `;`, `)`, `}`, `]`, `=`, `@`, and a blank or tab followed by `@`, `=`, `{`, `[`, `(`, `;`, … -/
+def ExprFollow (rest : List Char) : Bool := stops isNumChar rest && stops isCommodityChar (skipSpaces rest)
+
+theorem space_not_commodity {c : Char} (h : isSpace c = true) : isCommodityChar c = false := by
+  cases hc : isCommodityChar c with
+  | false => rfl
+  | true => rw [commodityChar_not_space hc] at h; cases h
+
+theorem follow_of_exprFollow (v : VExpr) {rest : List Char} (h : ExprFollow rest = true) : follow v rest = true := by
+  simp only [ExprFollow, Bool.and_eq_true] at h
+  cases v with
+  | paren e => rfl
+  | amt d c =>
+    simp only [follow, tokFollow]
+    split
+    · simp [h.1, h.2]
+    · cases rest with
+      | nil => rfl
+      | cons a r =>
+        cases ha : isSpace a with
+        | true => simp [space_not_commodity ha]
+        | false => simpa [skipSpaces_cons_nonspace r ha] using h.2
+
+theorem afterV_cases (v : VExpr) (rest : List Char) : afterV v rest = rest ∨ afterV v rest = skipSpaces rest := by
+  unfold afterV after; split <;> simp
+
+theorem skipSpaces_afterV (v : VExpr) (rest : List Char) : skipSpaces (afterV v rest) = skipSpaces rest :=
+  skipSpaces_after _ _
+
+/-- the round trip in the form the posting parser uses it (`ExprRT`): whatever admissible text follows, the tree is
+read back and the parser stops at the continuation, up to blanks it may have eaten -/
+theorem parse_print_follow (v : VExpr) (rest : List Char) (hw : wfVExpr v = true) (hp : plainV v = true)
+    (hf : ExprFollow rest = true) :
+    ∃ r', parseValueExpr (printVExpr noPrec v ++ rest) = .ok v r' ∧ skipSpaces r' = skipSpaces rest ∧
+      (r' = rest ∨ r' = skipSpaces rest) :=
+  ⟨afterV v rest, parse_print v rest hw hp (follow_of_exprFollow v hf), skipSpaces_afterV v rest, afterV_cases v rest⟩
+
+/-! ### with declared precisions: the numbers are read back as padded by `display.rs::rescale` -/
+
+mutual
+/-- the tree whose numbers are rescaled the way the printer does it (`max(own scale, declared precision)`) -/
+def rescaleE (p : String → Nat) : Expr → Expr
+  | .neg e => .neg (rescaleE p e)
+  | .bin op l r => .bin op (rescaleE p l) (rescaleE p r)
+  | .val v => .val (rescaleV p v)
+def rescaleV (p : String → Nat) : VExpr → VExpr
+  | .paren e => .paren (rescaleE p e)
+  | .amt d c => .amt (displayRescale p d c) c
+end
+
+mutual
+theorem printExpr_rescale (p : String → Nat) : ∀ e : Expr, printExpr p e = printExpr noPrec (rescaleE p e)
+  | .neg e => by simp only [rescaleE, printExpr_neg, printExpr_rescale p e]
+  | .bin op l r => by simp only [rescaleE, printExpr_bin, printExpr_rescale p l, printExpr_rescale p r]
+  | .val v => by simp only [rescaleE, printExpr_val, printVExpr_rescale p v]
+theorem printVExpr_rescale (p : String → Nat) : ∀ v : VExpr, printVExpr p v = printVExpr noPrec (rescaleV p v)
+  | .paren e => by simp only [rescaleV, printVExpr_paren, printExpr_rescale p e]
+  | .amt d c => by simp only [rescaleV, printVExpr_amt, displayRescale_noPrec]
+end
+
+mutual
+theorem rescaleE_noPrec : ∀ e : Expr, rescaleE noPrec e = e
+  | .neg e => by simp only [rescaleE, rescaleE_noPrec e]
+  | .bin op l r => by simp only [rescaleE, rescaleE_noPrec l, rescaleE_noPrec r]
+  | .val v => by simp only [rescaleE, rescaleV_noPrec v]
+theorem rescaleV_noPrec : ∀ v : VExpr, rescaleV noPrec v = v
+  | .paren e => by simp only [rescaleV, rescaleE_noPrec e]
+  | .amt d c => by simp only [rescaleV, displayRescale_noPrec]
+end
+
+/-- the round trip for any table of declared precisions: what is read back is the tree with the numbers as printed
+(`rescaleV`; with no declared precision that is the tree itself, `rescaleV_noPrec`) -/
+theorem parse_print_prec (p : String → Nat) (v : VExpr) (rest : List Char) (hw : wfVExpr (rescaleV p v) = true)
+    (hp : plainV (rescaleV p v) = true) (hf : follow v rest = true) :
+    parseValueExpr (printVExpr p v ++ rest) = .ok (rescaleV p v) (afterV v rest) := by
+  have h1 : follow (rescaleV p v) rest = follow v rest := by cases v <;> rfl
+  have h2 : afterV (rescaleV p v) rest = afterV v rest := by cases v <;> rfl
+  rw [printVExpr_rescale, ← h2]
+  exact parse_print _ rest hw hp (by rw [h1]; exact hf)
+--END
+/-! ### the stratified tree is determined by the parser's tree, hence by the text -/
+
+theorem ofExprMul_unary (u : UnaryE) : ofExprMul u.toExpr = (ofExprUnary u.toExpr).map .one := by
+  cases u <;> simp [UnaryE.toExpr, ofExprMul]
+
+theorem ofExprAdd_mul (m : MulE) : ofExprAdd m.toExpr = (ofExprMul m.toExpr).map .one := by
+  cases m with
+  | one u => cases u <;> simp [MulE.toExpr, UnaryE.toExpr, ofExprAdd]
+  | mul l r => simp [MulE.toExpr, ofExprAdd]
+  | div l r => simp [MulE.toExpr, ofExprAdd]
+
+mutual
+/-- `Spec.ofExprAdd` (the reading of a parser tree as a stratified tree) inverts `toExpr` -/
+theorem ofExprAdd_toExpr : ∀ a : AddE, ofExprAdd a.toExpr = some a
+  | .one m => by simp only [AddE.toExpr, ofExprAdd_mul, ofExprMul_toExpr m, Option.map]
+  | .add l r => by simp [AddE.toExpr, ofExprAdd, ofExprAdd_toExpr l, ofExprMul_toExpr r]
+  | .sub l r => by simp [AddE.toExpr, ofExprAdd, ofExprAdd_toExpr l, ofExprMul_toExpr r]
+theorem ofExprMul_toExpr : ∀ m : MulE, ofExprMul m.toExpr = some m
+  | .one u => by simp only [MulE.toExpr, ofExprMul_unary, ofExprUnary_toExpr u, Option.map]
+  | .mul l r => by simp [MulE.toExpr, ofExprMul, ofExprMul_toExpr l, ofExprUnary_toExpr r]
+  | .div l r => by simp [MulE.toExpr, ofExprMul, ofExprMul_toExpr l, ofExprUnary_toExpr r]
+theorem ofExprUnary_toExpr : ∀ u : UnaryE, ofExprUnary u.toExpr = some u
+  | .pos v => by simp [UnaryE.toExpr, ofExprUnary, ofVExpr_toVExpr v]
+  | .neg v => by simp [UnaryE.toExpr, ofExprUnary, ofVExpr_toVExpr v]
+theorem ofVExpr_toVExpr : ∀ v : ValueE, ofVExpr v.toVExpr = some v
+  | .amt d c => by simp [ValueE.toVExpr, ofVExpr]
+  | .paren a => by simp [ValueE.toVExpr, ofVExpr, ofExprAdd_toExpr a]
+end
+
+theorem toVExpr_injective {a b : ValueE} (h : a.toVExpr = b.toVExpr) : a = b := by
+  have := ofVExpr_toVExpr a
+  rw [h, ofVExpr_toVExpr b] at this
+  exact (Option.some.inj this).symm
+
+theorem toExpr_injective {a b : AddE} (h : a.toExpr = b.toExpr) : a = b := by
+  have := ofExprAdd_toExpr a
+  rw [h, ofExprAdd_toExpr b] at this
+  exact (Option.some.inj this).symm
+
+theorem follow_nil (v : ValueE) : v.follow [] = true := by
+  cases v with
+  | paren a => rfl
+  | amt d c => cases h : c.isEmpty <;> simp [ValueE.follow, tokFollow, h, skipSpaces]
+
+/-- **unambiguity of the printed form**: two printable stratified trees with the same text are the same tree — the
+text determines how the operators nest -/
+theorem text_injective (a b : ValueE) (ha : a.ok = true) (hb : b.ok = true) (h : a.text = b.text) : a = b := by
+  have h1 := valueE_roundtrip a [] ha (follow_nil a)
+  have h2 := valueE_roundtrip b [] hb (follow_nil b)
+  rw [h, h2] at h1
+  injection h1 with h1 _
+  exact (toVExpr_injective h1).symm
+
+/-! ### why `plainV` is needed: `wfVExpr` alone does not give the round trip -/
+
+/-- the statement with `wfVExpr` as the only hypothesis on the tree -/
+def parse_print_wfOnly_stmt : Prop :=
+  ∀ (v : VExpr) (rest : List Char), wfVExpr v = true → follow v rest = true →
+    parseValueExpr (printVExpr noPrec v ++ rest) = .ok v (afterV v rest)
+
+deriving instance DecidableEq for Expr, VExpr
+deriving instance DecidableEq for PRes
+
+/-- `(-1)`: a negative literal as an operand -/
+def negOperand : VExpr := .paren (.val (.amt ⟨true, 1, 0, none⟩ ""))
+
+theorem negOperand_wf : wfVExpr negOperand = true := by
+  simp only [negOperand, wfVExpr, wfAdd, wfMul, wfUnary]
+  decide +kernel
+
+theorem negOperand_reads :
+    plainV negOperand = false ∧ printVExpr noPrec negOperand = ['(', '-', '1', ')'] ∧
+    parseValueExpr (printVExpr noPrec negOperand) = .ok (.paren (.neg (.val (.amt ⟨false, 1, 0, none⟩ "")))) [] := by
+  decide +kernel
+
+theorem not_parse_print_wfOnly : ¬ parse_print_wfOnly_stmt := by
+  intro h
+  have h1 := h negOperand [] negOperand_wf rfl
+  rw [List.append_nil, negOperand_reads.2.2] at h1
+  revert h1
+  decide
+--END
 end Okane.ExprParse
